@@ -37,25 +37,28 @@ def register(R):
     R.module("easynetwork/lowlevel/api_sync/transports/abc.py")
     R.shape("DatagramReadTransport", cls="DatagramReadTransport", fields={})
     R.shape("DatagramWriteTransport", cls="DatagramWriteTransport", fields={})
+    from contracts._time import BLOCKING, TIME_MODIFIES, add_budget
     R.contract("DatagramReadTransport.recv", params={"timeout": "xreal"}, result="bytes", trusted=True,
-               ensures=["ghost.DG_IN == old(ghost.DG_IN) + unit(result)"], raises={"OSError": ["ghost.DG_IN == old(ghost.DG_IN)"]}, modifies=["ghost.DG_IN"])
+               ensures=["ghost.DG_IN == old(ghost.DG_IN) + unit(result)"] + BLOCKING(), raises={"OSError": ["ghost.DG_IN == old(ghost.DG_IN)"] + BLOCKING()},
+               modifies=["ghost.DG_IN"] + TIME_MODIFIES)
     R.contract("DatagramWriteTransport.send", params={"data": "bytes", "timeout": "xreal"}, trusted=True,
-               ensures=["ghost.DG_OUT == old(ghost.DG_OUT) + unit(data)"], raises={"OSError": ["ghost.DG_OUT == old(ghost.DG_OUT)"]}, modifies=["ghost.DG_OUT"])
+               ensures=["ghost.DG_OUT == old(ghost.DG_OUT) + unit(data)"] + BLOCKING(), raises={"OSError": ["ghost.DG_OUT == old(ghost.DG_OUT)"] + BLOCKING()},
+               modifies=["ghost.DG_OUT"] + TIME_MODIFIES)
     R.module("easynetwork/lowlevel/api_sync/endpoints/datagram.py")
     conv = "self.protocol._DatagramProtocol__converter"
     R.shape("_DatagramSenderImpl", cls="_DataSenderImpl", fields={"transport": "DatagramWriteTransport", "protocol": "DatagramProtocol"})
     R.shape("_DatagramReceiverImpl", cls="_DataReceiverImpl", fields={"transport": "DatagramReadTransport", "protocol": "DatagramProtocol"})
     dg = f"(fn('S_one', 'bytes', packet) if isnone({conv}) else fn('S_one', 'bytes', fn('K_dto', 'obj', packet)))"
-    R.contract(
+    add_budget(c=R.contract(
         "_DataSenderImpl.send", self_shape="_DatagramSenderImpl",
         params={"packet": "obj", "timeout": "xreal"},
         ensures=[("exactly-one-datagram-carrying-the-serialized-packet", f"ghost.DG_OUT == old(ghost.DG_OUT) + unit({dg})", "C05")],
         raises={"OSError": [("nothing-or-the-datagram", "True", "C05")]},
         modifies=["ghost.DG_OUT"], tags="C05",
-    )
+    ))
     last = "ghost.DG_IN[len(old(ghost.DG_IN))]"
     ok = f"(fn('Dg_ok', 'bool', {last}) and (isnone({conv}) or fn('K_ok', 'bool', fn('Dg_val', 'obj', {last}))))"
-    R.contract(
+    add_budget(c=R.contract(
         "_DataReceiverImpl.receive", self_shape="_DatagramReceiverImpl",
         params={"timeout": "xreal"}, result="obj",
         ensures=[("exactly-one-datagram-consumed", "len(ghost.DG_IN) == len(old(ghost.DG_IN)) + 1", "C05"),
@@ -63,4 +66,4 @@ def register(R):
         raises={"DatagramProtocolParseError": [("exactly-one-datagram-consumed-and-it-is-the-malformed-one", f"len(ghost.DG_IN) == len(old(ghost.DG_IN)) + 1 and not {ok}", "C05 C06")],
                 "OSError": [("nothing-consumed", "ghost.DG_IN == old(ghost.DG_IN)", "C05")]},
         modifies=["ghost.DG_IN"], tags="C05",
-    )
+    ))
